@@ -71,7 +71,10 @@ def hash_tree(root, subs, exts=(".go", ".mod", ".sum", ".lean", ".toml")):
 
 
 def repo_hash():
-    return hash_tree(REPO, ["main.go", "derive", "plugin", "go.mod"])
+    h = hash_tree(REPO, ["main.go", "derive", "plugin", "go.mod"])
+    # VERIF_COVER=1 (with GOCOVERDIR set): an instrumented goderive, cached apart from the plain one; used by
+    # tools/coverage.sh to find source branches of the generator that no corpus reaches (not by any registered check)
+    return h + "c" if os.environ.get("VERIF_COVER") else h
 
 
 def build_goderive():
@@ -84,7 +87,8 @@ def build_goderive():
             os.makedirs(d, exist_ok=True)
             env = dict(GOENV)
             env["GOFLAGS"] = ""
-            p = sh(["go", "build", "-o", binp + ".tmp", "."], cwd=REPO, env=env, timeout=600)
+            cover = ["-cover", "-coverpkg=github.com/awalterschulze/goderive/..."] if os.environ.get("VERIF_COVER") else []
+            p = sh(["go", "build"] + cover + ["-o", binp + ".tmp", "."], cwd=REPO, env=env, timeout=600)
             if p.returncode != 0:
                 raise CheckError("goderive does not build from %s:\n%s" % (REPO, p.stderr[-4000:]))
             os.rename(binp + ".tmp", binp)
